@@ -53,7 +53,8 @@ namespace Pistache
 
         typename Base::int_type snext() const
         {
-            if (this->gptr() == this->egptr())
+            // the byte after the current one: there is none if at most one byte is left
+            if (this->egptr() - this->gptr() < 2)
             {
                 return traits_type::eof();
             }
